@@ -16,6 +16,7 @@ import (
 	stdjson "encoding/json"
 	"errors"
 	"fmt"
+	"hash/fnv"
 	"os"
 	"os/exec"
 	"strconv"
@@ -178,6 +179,60 @@ func (c c11NopCloser) Close() error                { return nil }
 type c11Call struct {
 	name string
 	run  func(h *c11Handles) string
+	// equiv names a call that does the last step of this one without the failing call before it: in a fresh
+	// process both must return the same (a history of two steps with its own oracle)
+	equiv string
+}
+
+// a list deeper than the encoder's cycle-detection threshold whose last node can be told to fail
+type c11Node struct {
+	V    int         `json:"v"`
+	M    *c11MErr    `json:"m,omitempty"`
+	I    interface{} `json:"i,omitempty"`
+	Next *c11Node    `json:"next,omitempty"`
+}
+
+var (
+	c11DeepOnce sync.Once
+	c11DeepHead *c11Node
+	c11DeepTail *c11MErr
+)
+
+func c11Deep() (*c11Node, *c11MErr) {
+	c11DeepOnce.Do(func() {
+		c11DeepTail = &c11MErr{}
+		var head *c11Node
+		for i := 0; i < 1300; i++ {
+			n := &c11Node{V: i, Next: head}
+			if i == 0 {
+				n.M = c11DeepTail
+			}
+			if i%100 == 0 {
+				n.I = &c11Node{V: -i} // an interface level on the way
+			}
+			head = n
+		}
+		c11DeepHead = head
+	})
+	return c11DeepHead, c11DeepTail
+}
+
+func c11Sum(b []byte, err error) string {
+	if err != nil {
+		return "ERR " + fmt.Sprintf("%T: %v", err, err)
+	}
+	h := fnv.New64a()
+	h.Write(b)
+	return "OKLEN " + strconv.Itoa(len(b)) + " " + strconv.FormatUint(h.Sum64(), 16)
+}
+
+// an Unmarshaler that sees the context of the call
+type c11UCtx struct{ K string }
+
+func (u *c11UCtx) UnmarshalJSON(ctx context.Context, b []byte) error {
+	k, _ := ctx.Value(c11Key{}).(string)
+	u.K = "ctx=" + k + " doc=" + string(b)
+	return nil
 }
 
 func c11Res(b []byte, err error) string {
@@ -200,7 +255,7 @@ func c11Calls() []c11Call {
 	var calls []c11Call
 	vals := c11Values()
 	add := func(name string, f func(h *c11Handles) string) {
-		calls = append(calls, c11Call{name, func(h *c11Handles) string { return c11Guard(func() string { return f(h) }) }})
+		calls = append(calls, c11Call{name: name, run: func(h *c11Handles) string { return c11Guard(func() string { return f(h) }) }})
 	}
 	ctxWith := func(k string) context.Context { return context.WithValue(context.Background(), c11Key{}, k) }
 	for vi := range vals {
@@ -284,6 +339,93 @@ func c11Calls() []c11Call {
 			err := e.EncodeContext(ctxWith("ke"), v)
 			return c11Res(b.Bytes(), err)
 		})
+	}
+	// ---- two-step histories with their own oracle: a failing call, then a call that must not notice ----
+	deepEnc := []struct {
+		name string
+		f    func(v interface{}) ([]byte, error)
+	}{
+		{"Marshal", func(v interface{}) ([]byte, error) { return gojson.Marshal(v) }},
+		{"MarshalIndent", func(v interface{}) ([]byte, error) { return gojson.MarshalIndent(v, "", " ") }},
+		{"MarshalContext", func(v interface{}) ([]byte, error) { return gojson.MarshalContext(ctxWith("kq"), v) }},
+	}
+	for _, de := range deepEnc {
+		de := de
+		add(de.name+" deep list", func(*c11Handles) string {
+			head, tail := c11Deep()
+			tail.Fail = false
+			return c11Sum(de.f(head))
+		})
+		add(de.name+" deep list whose last node fails", func(*c11Handles) string {
+			head, tail := c11Deep()
+			tail.Fail = true
+			defer func() { tail.Fail = false }()
+			return c11Sum(de.f(head))
+		})
+		add(de.name+" deep list after a failed encoding of it", func(*c11Handles) string {
+			head, tail := c11Deep()
+			tail.Fail = true
+			de.f(head)
+			tail.Fail = false
+			return c11Sum(de.f(head))
+		})
+		calls[len(calls)-1].equiv = de.name + " deep list"
+	}
+	dupDoc := `{"a":1,"a":2,"b":"first","b":"second"}`
+	plainDup := func(dec *gojson.Decoder) string {
+		var d c11Dst
+		err := dec.Decode(&d)
+		return c11Res([]byte(fmt.Sprintf("%+v", d)), err)
+	}
+	plainCtx := func(dec *gojson.Decoder) string {
+		var u c11UCtx
+		err := dec.Decode(&u)
+		return c11Res([]byte(u.K), err)
+	}
+	add("Decoder(fresh) plain Decode of duplicate keys", func(*c11Handles) string {
+		return plainDup(gojson.NewDecoder(&c11Feed{pending: []byte(dupDoc + "\n")}))
+	})
+	add("Decoder(fresh) plain Decode into a context-aware Unmarshaler", func(*c11Handles) string {
+		return plainCtx(gojson.NewDecoder(&c11Feed{pending: []byte(dupDoc + "\n")}))
+	})
+	for _, fail := range []struct {
+		name string
+		call func(dec *gojson.Decoder) error
+	}{
+		{"DecodeWithOption(FirstWin) refused by the destination's UnmarshalJSON", func(dec *gojson.Decoder) error {
+			return dec.DecodeWithOption(&c11UErr{}, gojson.DecodeFieldPriorityFirstWin())
+		}},
+		{"DecodeContext refused by the destination's UnmarshalJSON", func(dec *gojson.Decoder) error {
+			return dec.DecodeContext(ctxWith("kf"), &c11UErr{})
+		}},
+		{"DecodeContext with a destination that is no pointer", func(dec *gojson.Decoder) error {
+			return dec.DecodeContext(ctxWith("kf"), 5)
+		}},
+	} {
+		fail := fail
+		for _, then := range []struct {
+			name  string
+			f     func(dec *gojson.Decoder) string
+			equiv string
+		}{
+			{"plain Decode of duplicate keys", plainDup, "Decoder(fresh) plain Decode of duplicate keys"},
+			{"plain Decode into a context-aware Unmarshaler", plainCtx, "Decoder(fresh) plain Decode into a context-aware Unmarshaler"},
+		} {
+			then := then
+			add("Decoder: "+fail.name+", then "+then.name, func(*c11Handles) string {
+				feed := &c11Feed{pending: []byte("\"bad\"\n")}
+				dec := gojson.NewDecoder(feed)
+				if err := fail.call(dec); err == nil {
+					return "the first call did not fail"
+				}
+				if strings.Contains(fail.name, "no pointer") {
+					feed.pending = nil // nothing was read
+				}
+				feed.pending = append(feed.pending, []byte(dupDoc+"\n")...)
+				return then.f(dec)
+			})
+			calls[len(calls)-1].equiv = then.equiv
+		}
 	}
 	for di := range c11Docs {
 		di := di
@@ -566,6 +708,25 @@ func runC11(o *Out) {
 		}
 	}
 	o.count("cold_oracle_processes", int64(len(calls)))
+	byName := map[string]int{}
+	for i := range calls {
+		byName[calls[i].name] = i
+	}
+	for i := range calls {
+		if calls[i].equiv == "" {
+			continue
+		}
+		j, ok := byName[calls[i].equiv]
+		o.count("two_step_histories", 1)
+		if !ok || cold[i] == "\x00unavailable" || cold[j] == "\x00unavailable" {
+			continue
+		}
+		if cold[i] != cold[j] {
+			o.violation("C11", "a call made after a failing call returned something else than the same call made first", map[string]string{
+				"history": calls[i].name, "same_as": calls[j].name, "after_the_failing_call": clip(cold[i]), "made_first": clip(cold[j]),
+				"replay_indices": strconv.Itoa(i) + " against " + strconv.Itoa(j)})
+		}
+	}
 	coldPath := o.dir + "/cold.json"
 	hexed := make([]string, len(cold))
 	for i := range cold {
